@@ -599,6 +599,22 @@ func genRouter(profile string) func(rng *rand.Rand, n int, tier string, emit fun
 			if profile == "C08" && rng.Intn(5) == 0 {
 				policy = "same" // go on with the same instance after a rejection: a failed registration answers nothing
 			}
+			if profile == "C01" && rng.Intn(15) == 0 {
+				// many equally ranked alternatives under one node: the earliest registered still wins
+				for k := 0; k < 14; k++ {
+					r := T("route", T("seg", B(false), T("id", X("vv"))), T("seg", B(false), T("params", g.regexParam(fmt.Sprintf("r%d", k), T("plus", T("cls", T("r", I('0'), I('9'))))))))
+					ops = append(ops, T("reg", T("m", A("GET")), r))
+					accepted = append(accepted, r)
+					if k%5 == 2 { // leaves of other styles in between
+						for _, x := range []*Sx{T("seg", B(false), T("id", X(fmt.Sprintf("st%d", k)))), T("seg", B(false), T("bind", X(fmt.Sprintf("ph%d", k))))} {
+							r2 := T("route", T("seg", B(false), T("id", X("vv"))), x)
+							ops = append(ops, T("reg", T("m", A("GET")), r2))
+							accepted = append(accepted, r2)
+						}
+					}
+				}
+				ops = append(ops, T("req", X("GET"), X("/vv/123"), T("hdrs")), T("req", X("GET"), X("/vv/st2"), T("hdrs")), T("req", X("GET"), X("/vv/zz"), T("hdrs")))
+			}
 			if profile == "C08" && policy == "rebuild" && rng.Intn(12) == 0 {
 				// two routes that differ only by a '?' inside an expression are different routes (both accepted); two
 				// different match-alls in the middle at the same position cannot coexist (the second is refused),
